@@ -259,7 +259,9 @@ func eqCons(a, b consensus.Message) string {
 
 func rtCons(c *core.Case, kind string) {
 	m := wellFormedCons(c.R, kind)
-	wit := func() interface{} { return map[string]interface{}{"type": kind, "message": short(fmt.Sprintf("%+v", m), 600)} }
+	wit := func() interface{} {
+		return map[string]interface{}{"type": kind, "message": short(fmt.Sprintf("%+v", m), 600)}
+	}
 	c.Guard("round trip consensus "+kind, wit, func() {
 		if err := m.ValidateBasic(); err != nil {
 			c.Run.Count("roundtrip_generator_rejected:"+kind, 1)
@@ -400,7 +402,9 @@ func rtEvidence(c *core.Case) {
 		}
 		evs = append(evs, &types.DuplicateVoteEvidence{VoteA: a, VoteB: b, TotalVotingPower: int64(r.Intn(1 << 40)), ValidatorPower: int64(r.Intn(1 << 30)), Timestamp: rTime(r)})
 	}
-	wit := func() interface{} { return map[string]interface{}{"type": "EvidenceList", "evidence": short(fmt.Sprint(evs), 800)} }
+	wit := func() interface{} {
+		return map[string]interface{}{"type": "EvidenceList", "evidence": short(fmt.Sprint(evs), 800)}
+	}
 	c.Guard("round trip evidence", wit, func() {
 		for _, ev := range evs {
 			if err := ev.ValidateBasic(); err != nil {
